@@ -75,7 +75,7 @@ def atomText (C : Codec) : Atom → Str
   | .pyint v => intToStr v
   | .pyfloat bits => C.fmtReal true bits
   | .ref _ => []                          -- not reachable: references use VALUE.REFERENCE
-  | .einst i => (encInst C i).ser
+  | .einst i => (encInstElem C i).ser     -- `_embedded_object_xmlstr`: tocimxml(ignore_path=True)
   | .ecls c => (encCls C c).ser
 
 /-- KEYBINDING for one key (CIMInstanceName.tocimxml loop body) -/
